@@ -1,5 +1,6 @@
 (* C11 — a failing sink surfaces as Err(Io) from the builder call in progress: never a panic,
-   never success; a build is reported finished only if every byte was accepted and flushed.
+   never success; a build is reported finished only if every byte was accepted and then flushed
+   (nothing is written after the last flush).
    Statements only; proofs in proofs/WriterProofs.v.  wc_of r = number of write calls the sink had
    received when the API call returned, so "the call that consumed response number K" is the
    first record with wc_of r > K. *)
@@ -71,7 +72,8 @@ Qed.
 (* ANY script and flush response (several faults, faults after Interrupted, ...):
    no call panics or diverges; only the last call of a session can fail and it fails with Io;
    into_inner = Ok implies that the sink holds prefill ++ every chunk byte ++ the 4 checksum bytes
-   and that the flush succeeded *)
+   and that it is committed (WriterProofs.sink_committed): a flush succeeded and the sink accepted
+   nothing after its last successful flush - the checksum bytes were written BEFORE it *)
 Definition io_or_ok (r : res unit) : Prop :=
   match r with Ok _ => True | Err (EIo _) => True | _ => False end.
 
@@ -87,7 +89,7 @@ Theorem C11_finished_means_complete : forall crc_update masked, chunk_law crc_up
     io_or_ok (to_res (st_of rf)) /\
     (to_res (st_of rf) = Ok tt ->
        s_data (o_final o) = prefill ++ file_bytes crc_update masked calls fin /\
-       sink_flushed (o_final o))
+       sink_committed (o_final o))
   end.
 Proof.
   intros crc masked [Ha Hn] oracle fl prefill calls fin.
@@ -119,7 +121,7 @@ Theorem C11_finished_means_complete_bufwriter : forall crc_update masked, chunk_
     io_or_ok (to_res (st_of rf)) /\
     (to_res (st_of rf) = Ok tt ->
        s_data (b_inner (o_final o)) = prefill ++ file_bytes crc_update masked calls fin /\
-       b_buf (o_final o) = [] /\ sink_flushed (b_inner (o_final o)))
+       b_buf (o_final o) = [] /\ sink_committed (b_inner (o_final o)))
   end.
 Proof.
   intros crc masked [Ha Hn] cap oracle fl prefill calls fin.
